@@ -36,6 +36,9 @@ type wireFrame struct {
 }
 
 type callPlan struct {
+	reuse   *callPlan // use the FContext of this earlier call of the same caller again
+	ctx     frugal.FContext
+	sameCtx []*callPlan // every plan that went out on this plan's FContext object (itself included)
 	id      int
 	tag     string
 	method  string
@@ -358,6 +361,11 @@ func (h *simHandler) enter(fctx frugal.FContext, method string, args ...any) (*c
 		return p, errors.New(p.msg)
 	case "appex":
 		return p, thrift.NewTApplicationException(p.appType, p.msg)
+	case "transporterr":
+		// e.g. a downstream call of the handler timed out and the error is passed on
+		return p, thrift.NewTTransportException(thrift.TIMED_OUT, p.msg)
+	case "protoerr":
+		return p, thrift.NewTProtocolExceptionWithType(thrift.INVALID_DATA, errors.New(p.msg))
 	}
 	return p, nil
 }
@@ -467,11 +475,40 @@ func (h *simHandler) Fire(fctx frugal.FContext, s string) error {
 // ---- invoking the generated client ---------------------------------------------------
 
 func (env *e2eEnv) invoke(p *callPlan) {
-	ctx := frugal.NewFContext(p.cid)
-	ctx.SetTimeout(p.timeout)
-	ctx.AddRequestHeader("tag", p.tag)
-	for k, v := range p.reqHdr {
-		ctx.AddRequestHeader(k, v)
+	var ctx frugal.FContext
+	if p.reuse != nil && p.reuse.ctx != nil && p.reuse.returned {
+		// the same FContext object goes out again with another timeout and more headers:
+		// what is on the context NOW is what the handler must see
+		ctx = p.reuse.ctx
+		p.cid = ctx.CorrelationID()
+		p.sameCtx = p.reuse.sameCtx
+		env.rc.Fault("fcontext-reused-for-another-call")
+	} else {
+		ctx = frugal.NewFContext(p.cid)
+		p.reuse = nil
+	}
+	p.ctx = ctx
+	p.sameCtx = append(p.sameCtx, p)
+	for _, q := range p.sameCtx {
+		q.sameCtx = p.sameCtx
+	}
+	if p.reuse != nil && !p.reuse.oneway && p.reuse.gotErr == nil && env.rc.Tape.Intn("reuse", 2) == 1 {
+		// nothing but the timeout changes between the two calls (the handler
+		// finds the plan through the unchanged tag header)
+		delete(env.plans, p.tag)
+		p.tag = p.reuse.tag
+		env.plans[p.tag] = p
+		ctx.SetTimeout(p.timeout)
+		env.rc.Fault("fcontext-reused-only-timeout-changed")
+	} else {
+		ctx.SetTimeout(p.timeout)
+		ctx.AddRequestHeader("tag", p.tag)
+		for k, v := range p.reqHdr {
+			ctx.AddRequestHeader(k, v)
+		}
+	}
+	if p.reuse != nil {
+		p.reqHdr = userHeaders(ctx.RequestHeaders())
 	}
 	p.opid, _ = ctx.RequestHeader("_opid")
 	if p.staleRespKey != "" {
